@@ -28,7 +28,7 @@ type StressInput struct {
 	PerG       int    `json:"per_goroutine"`
 	RTP        bool   `json:"rtp"`         // encryptRTP instead of encryptRTCP
 	SharedSSRC bool   `json:"shared_ssrc"` // all goroutines use one SSRC
-	Warm       bool   `json:"warm"` // one sequential call per SSRC first (the per-SSRC state then exists)
+	Warm       bool   `json:"warm"`        // one sequential call per SSRC first (the per-SSRC state then exists)
 	MKI        string `json:"mki"`
 	Key        string `json:"key"`
 }
